@@ -1521,6 +1521,10 @@ static void emit_data(Obj *prog) {
     if (var->is_function || !var->is_definition)
       continue;
 
+    // A block-scope static goes away with a function that is not emitted.
+    if (var->owner_fn && !var->owner_fn->is_live)
+      continue;
+
     if (var->is_static)
       println("  .local %s", var->name);
     else
